@@ -84,6 +84,94 @@ class Inst:
                     k += 1
 
 
+# ------------------------------------------------------------------ embedding a block in a larger design
+_HOOK = None
+def _emb(hw, thunk):
+    """every build() constructs its block through this: a hook may add other library logic to the same HWSystem before and/or
+    after the block under observation is instantiated"""
+    if _HOOK: _HOOK('pre', hw)
+    obj = thunk()
+    if _HOOK: _HOOK('post', hw)
+    return obj
+
+
+GATES = {'xor': (lambda a, b: a ^ b), 'and': (lambda a, b: a & b), 'or': (lambda a, b: a | b)}
+
+class Embed:
+    """drives the named input wires of a block from other library logic: a free-running Counter, a Mul scrambler, Bit/Range
+    slices and a 2-input gate per input.  mode 'auto': both gate operands are slices (the design runs on its own);
+    mode 'ext': the second operand is a wire the harness pokes.  order: 'block_first' (the block is the first thing instantiated,
+    all the logic driving it afterwards), 'sources_first', 'mixed' (counter + scrambler before, slices and gates after)."""
+    def __init__(self, names, order, mode, seed):
+        self.names, self.order, self.mode, self.rng = names, order, mode, random.Random(seed)
+        self.src, self.ext, self.gate = [], [], []
+        self.scr = None
+    def core(self, hw):
+        py4hw = P()
+        q, k, self.scr = hw.wire('drv_q', 10), hw.wire('drv_k', 14), hw.wire('drv_scr', 24)
+        py4hw.logic.arithmetic.Counter(hw, 'drv_cnt', None, None, q)
+        py4hw.Constant(hw, 'drv_k', 2 * self.rng.randrange(1 << 12, 1 << 13) + 1, k)
+        py4hw.Mul(hw, 'drv_mul', q, k, self.scr)
+    def slice(self, hw, name, width):
+        py4hw = P()
+        w = hw.wire(name, width)
+        lo = self.rng.randrange(0, 24 - width + 1)
+        if width == 1: py4hw.Bit(hw, name, self.scr, lo, w)
+        else: py4hw.Range(hw, name, self.scr, lo + width - 1, lo, w)
+        return w
+    def gates(self, hw):
+        py4hw = P()
+        for j, n in enumerate(self.names):
+            tgt = hw._wires[n]; width = tgt.getWidth()
+            a = self.slice(hw, 'drv_a%d' % j, width)
+            g = self.rng.choice(sorted(GATES))
+            b = hw.wire('ext%d' % j, width) if self.mode == 'ext' else self.slice(hw, 'drv_b%d' % j, width)
+            {'xor': py4hw.Xor2, 'and': py4hw.And2, 'or': py4hw.Or2}[g](hw, 'drv_g%d' % j, a, b, tgt)
+            self.src.append(a); self.ext.append(b); self.gate.append(g)
+    def __call__(self, stage, hw):
+        if stage == 'pre':
+            if self.order in ('sources_first', 'mixed'): self.core(hw)
+            if self.order == 'sources_first': self.gates(hw)
+        else:
+            if self.order == 'block_first': self.core(hw)
+            if self.order in ('block_first', 'mixed'): self.gates(hw)
+
+
+def run_embedded(blk, p, order, mode, seed, n_steps, ext_hist=None):
+    """returns (i0, [(sampled inputs, inputs visible after the edge)], impl rows, ext pokes).  Nothing is propagated by hand:
+    outputs are read right after construction and right after every clk(1), as a user of the simulator sees them."""
+    global _HOOK
+    probe = blk.build(dict(p))
+    names = [w.name for w in probe.ins if w.getSinks()]           # the real input ports (absent optional ports have dummy wires)
+    emb = Embed(names, order, mode, seed)
+    _HOOK = emb
+    try:
+        inst = blk.build(p)
+    finally:
+        _HOOK = None
+    rng = random.Random(seed + 1)
+    real = {n: k for k, n in enumerate(names)}
+    def visible(): return [w.get() for w in inst.ins]
+    i0 = visible()
+    rows = [inst.post_out() + inst.post_state()]
+    hist, pokes = [], []
+    for t in range(n_steps):
+        si = visible()
+        if mode == 'ext':
+            ev = ext_hist[t] if ext_hist is not None else [rng.randrange(1 << e.getWidth()) for e in emb.ext]
+            pokes.append(ev)
+            for e, v in zip(emb.ext, ev): e.put(v)
+            for k, w in enumerate(inst.ins):          # what the gate will show once clk(1) has propagated the poke
+                if w.name in real:
+                    j = real[w.name]
+                    si[k] = GATES[emb.gate[j]](emb.src[j].get(), ev[j]) & ((1 << w.getWidth()) - 1)
+        with quiet():
+            inst.sim.clk(1)
+        hist.append((si, visible()))
+        rows.append(inst.post_out() + inst.post_state())
+    return i0, hist, rows, pokes
+
+
 def regs_of(o):
     """the Reg leaves below o in construction order (found by class, not by instance name, so that renaming an
     internal instance or wire does not disturb the harness); reg.q is the wire the register drives"""
@@ -131,7 +219,7 @@ class BReg(Block):
             e = hw.wire('e', p['we']) if p['he'] else None
             r = hw.wire('r', p['wr']) if p['hr'] else None
             kw = {} if p['rv'] is None else {'reset_value': p['rv']}
-            reg = py4hw.Reg(hw, 'reg', d, q, enable=e, reset=r, **kw)
+            reg = _emb(hw, lambda: py4hw.Reg(hw, 'reg', d, q, enable=e, reset=r, **kw))
         ins = [d, e if e is not None else hw.wire('_e', 1), r if r is not None else hw.wire('_r', 1)]
         return Inst(hw, ins, lambda: [], lambda: [q.get()], lambda: [reg.value])
     def _rng(self, p): return (R(p['wd']), R(p['we']) if p['he'] else [0], R(p['wr']) if p['hr'] else [0])
@@ -155,7 +243,7 @@ class BTReg(Block):
             t, q = hw.wire('t', p['wt']), hw.wire('q', 1)
             e = hw.wire('e', p['we']) if p['he'] else None
             r = hw.wire('r', p['wr']) if p['hr'] else None
-            tr = py4hw.logic.storage.TReg(hw, 'treg', t, q, enable=e, reset=r)
+            tr = _emb(hw, lambda: py4hw.logic.storage.TReg(hw, 'treg', t, q, enable=e, reset=r))
         reg = regs_of(tr)[0]
         ins = [t, e if e is not None else hw.wire('_e', 1), r if r is not None else hw.wire('_r', 1)]
         return Inst(hw, ins, lambda: [], lambda: [q.get()], lambda: [reg.value])
@@ -180,7 +268,7 @@ class BCounter(Block):
             q = hw.wire('q', p['w'])
             rs = hw.wire('reset', p['wc']) if p['hr'] else None
             inc = hw.wire('inc', p['wc']) if p['hi'] else None
-            c = py4hw.logic.arithmetic.Counter(hw, 'cnt', rs, inc, q)
+            c = _emb(hw, lambda: py4hw.logic.arithmetic.Counter(hw, 'cnt', rs, inc, q))
         reg = regs_of(c)[0]
         ins = [rs if rs is not None else hw.wire('_r', 1), inc if inc is not None else hw.wire('_i', 1)]
         return Inst(hw, ins, lambda: [], lambda: [q.get()], lambda: [reg.value])
@@ -202,7 +290,7 @@ class BModCounter(Block):
         with quiet():
             hw = py4hw.HWSystem()
             q, rs, inc, co = hw.wire('q', p['w']), hw.wire('reset', 1), hw.wire('inc', 1), hw.wire('carry', 1)
-            c = py4hw.logic.arithmetic.ModuloCounter(hw, 'cnt', p['m'], rs, inc, q, co)
+            c = _emb(hw, lambda: py4hw.logic.arithmetic.ModuloCounter(hw, 'cnt', p['m'], rs, inc, q, co))
         reg = regs_of(c)[0]
         return Inst(hw, [rs, inc], lambda: [], lambda: [q.get(), co.get()], lambda: [reg.value])
     def alphabet(self, p): return prod(R(1), R(1))
@@ -223,7 +311,7 @@ class BStepUp(Block):
             hw = py4hw.HWSystem()
             q, inc, st = hw.wire('q', p['w']), hw.wire('inc', 1), hw.wire('step', p['ws'])
             rs = hw.wire('reset', 1) if p['hr'] else None
-            c = py4hw.logic.arithmetic.StepUpCounter(hw, 'cnt', rs, inc, st, q)
+            c = _emb(hw, lambda: py4hw.logic.arithmetic.StepUpCounter(hw, 'cnt', rs, inc, st, q))
         reg = regs_of(c)[0]
         return Inst(hw, [rs if rs is not None else hw.wire('_r', 1), inc, st], lambda: [], lambda: [q.get()], lambda: [reg.value])
     def _rng(self, p): return (R(1) if p['hr'] else [0], R(1), R(p['ws']))
@@ -248,7 +336,7 @@ class BDelay(Block):
             a, r = hw.wire('a', p['w']), hw.wire('r', p['wr'])
             en = hw.wire('en', 1) if p['he'] else None
             rs = hw.wire('reset', 1) if p['hr'] else None
-            dl = py4hw.logic.storage.DelayLine(hw, 'dl', a, en, rs, r, p['delay'])
+            dl = _emb(hw, lambda: py4hw.logic.storage.DelayLine(hw, 'dl', a, en, rs, r, p['delay']))
         regs = regs_of(dl); assert len(regs) == p['delay']
         qs = [x.q for x in regs]
         ins = [a, en if en is not None else hw.wire('_e', 1), rs if rs is not None else hw.wire('_r', 1)]
@@ -273,7 +361,7 @@ class BPipe(Block):
             ins = [hw.wire('i%d' % k, w) for k, w in enumerate(p['wi'])]
             outs = [hw.wire('o%d' % k, w) for k, w in enumerate(p['wo'])]
             rs = hw.wire('reset', 1)
-            pp = py4hw.logic.storage.PipelinePhase(hw, 'pp', rs, ins, outs)
+            pp = _emb(hw, lambda: py4hw.logic.storage.PipelinePhase(hw, 'pp', rs, ins, outs))
         regs = regs_of(pp); assert len(regs) == len(ins)
         return Inst(hw, ins + [rs], lambda: [], lambda: [w.get() for w in outs], lambda: [x.value for x in regs])
     def _rng(self, p): return tuple(R(w) for w in p['wi']) + (R(1),)
@@ -291,7 +379,7 @@ class BEdge(Block):
         with quiet():
             hw = py4hw.HWSystem()
             a, r = hw.wire('a', 1), hw.wire('r', 1)
-            ed = py4hw.logic.clock.EdgeDetector(hw, 'ed', a, r, p['dir'])
+            ed = _emb(hw, lambda: py4hw.logic.clock.EdgeDetector(hw, 'ed', a, r, p['dir']))
         reg = regs_of(ed)[0]; z1 = reg.q
         return Inst(hw, [a], lambda: [r.get()], lambda: [r.get()], lambda: [z1.get(), reg.value])
     def alphabet(self, p): return [[0], [1]]
@@ -313,7 +401,7 @@ class BClkDiv(Block):
             hw = py4hw.HWSystem()
             clkout = hw.wire('clkout', 1)
             rs = hw.wire('reset', 1) if p['hr'] else None
-            cd = py4hw.logic.clock.ClockDivider(hw, 'cd', p['fin'], p['fout'], clkout, reset=rs)
+            cd = _emb(hw, lambda: py4hw.logic.clock.ClockDivider(hw, 'cd', p['fin'], p['fout'], clkout, reset=rs))
         eq = one_of(cd, 'EqualConstant'); creg, treg = regs_of(cd); q, t = creg.q, eq.r
         p['_n'], p['_qw'] = eq.v + 1, q.getWidth()          # what the constructor really built
         return Inst(hw, [rs] if rs is not None else [], lambda: [], lambda: [clkout.get()], lambda: [q.get(), t.get(), creg.value, treg.value])
@@ -338,7 +426,7 @@ class BShift(Block):
             w = p['w']
             li, ri, lo, ro = hw.wire('li', w), hw.wire('ri', w), hw.wire('lo', w), hw.wire('ro', w)
             sl, sr = hw.wire('sl', 1), hw.wire('sr', 1)
-            s = py4hw.logic.storage.ShiftRegisterBidirectional(hw, 'srb', li, ri, lo, ro, sl, sr, p['depth'])
+            s = _emb(hw, lambda: py4hw.logic.storage.ShiftRegisterBidirectional(hw, 'srb', li, ri, lo, ro, sl, sr, p['depth']))
         regs = regs_of(s); assert len(regs) == p['depth']
         qs = [x.q for x in regs]
         return Inst(hw, [li, ri, sl, sr], lambda: [], lambda: [lo.get(), ro.get()], lambda: [x.get() for x in qs] + [x.value for x in regs])
@@ -361,7 +449,7 @@ class BStack(Block):
             w = p['w']
             din, dout, push, pop = hw.wire('din', w), hw.wire('dout', w), hw.wire('push', 1), hw.wire('pop', 1)
             em, fu = (hw.wire('empty', 1), hw.wire('full', 1)) if p['flags'] else (None, None)
-            st = py4hw.logic.storage.Stack_ShiftRegister(hw, 'stk', din, dout, push, pop, em, fu, p['depth'])
+            st = _emb(hw, lambda: py4hw.logic.storage.Stack_ShiftRegister(hw, 'stk', din, dout, push, pop, em, fu, p['depth']))
         allregs = regs_of(st); assert len(allregs) == p['depth'] + 1
         regs, dreg = allregs[:-1], allregs[-1]          # the row of the shift register, then the output register
         qs = [x.q for x in regs]
@@ -384,7 +472,7 @@ class BMem(Block):
             hw = py4hw.HWSystem()
             ra, wa, we = hw.wire('ra', p['aw']), hw.wire('wa', p['aw']), hw.wire('we', 1)
             rd, wd = hw.wire('rd', p['wr']), hw.wire('wd', p['dw'])
-            m = py4hw.logic.storage.SynchronousMemory(hw, 'mem', ra, wa, we, rd, wd)
+            m = _emb(hw, lambda: py4hw.logic.storage.SynchronousMemory(hw, 'mem', ra, wa, we, rd, wd))
         return Inst(hw, [ra, wa, we, wd], lambda: [], lambda: [rd.get()], lambda: list(m.data))
     def alphabet(self, p): return prod(R(p['aw']), R(p['aw']), R(1), R(p['dw'])) if 2 * p['aw'] + p['dw'] <= 4 else None
     def rand_row(self, p, rng):
@@ -402,7 +490,7 @@ class BAutoReset(Block):
         with quiet():
             hw = py4hw.HWSystem()
             r = hw.wire('reset', p['w'])
-            ar = py4hw.logic.clock.AutoReset(hw, 'ar', r)
+            ar = _emb(hw, lambda: py4hw.logic.clock.AutoReset(hw, 'ar', r))
         return Inst(hw, [], lambda: [], lambda: [r.get()], lambda: [ar.state])
     def alphabet(self, p): return [[]]
     def rand_row(self, p, rng): return []
@@ -424,7 +512,7 @@ class BDualPort(Block):
             W = hw.wire
             raa, waa, wa, rda, wda = W('raa', aw), W('waa', aw), W('wa', 1), W('rda', wr), W('wda', dw)
             rab, wab, wb, rdb, wdb = W('rab', aw), W('wab', aw), W('wb', 1), W('rdb', wr), W('wdb', dw)
-            m = py4hw.logic.storage.DualPortSynchronousMemory(hw, 'mem', raa, waa, wa, rda, wda, rab, wab, wb, rdb, wdb)
+            m = _emb(hw, lambda: py4hw.logic.storage.DualPortSynchronousMemory(hw, 'mem', raa, waa, wa, rda, wda, rab, wab, wb, rdb, wdb))
         return Inst(hw, [raa, waa, wa, wda, rab, wab, wb, wdb], lambda: [], lambda: [rda.get(), rdb.get()], lambda: list(m.data))
     def alphabet(self, p): return prod(R(p['aw']), R(p['aw']), R(1), R(p['dw']), R(p['aw']), R(p['aw']), R(1), R(p['dw'])) if 4 * p['aw'] + 2 * p['dw'] <= 6 else None
     def rand_row(self, p, rng):
@@ -532,7 +620,13 @@ def eval_batches(ctx, cases, tag):
             h = rows_term(c['hist'])
             sp = '(%s %s)' % (c['blk'].spec(c['p']), h)
             md = '' if spec_only else '(%s %s) ' % (c['blk'].model(c['p']), h)
-            if c['kind'] == 'explore' and c['hist']:
+            if c['kind'] == 'embed':
+                eh = '[' + '; '.join('(%s, %s)' % (zlist(a), zlist(b)) for a, b in c['ehist']) + ']'
+                et = lambda t: t.replace('_trace', '_etrace', 1)
+                sp = '(%s %s %s)' % (et(c['blk'].spec(c['p'])), zlist(c['i0']), eh)
+                md = '' if spec_only else '(%s %s %s) ' % (et(c['blk'].model(c['p'])), zlist(c['i0']), eh)
+                terms.append('%s %s %s%s' % ('ecmp_spec' if spec_only else 'ecmp', rows_term(c['rows']), md, sp))
+            elif c['kind'] == 'explore' and c['hist']:
                 # every proper prefix of an exploration history is a case of its own: compare the last row only
                 terms.append('%s %d%%nat %s %s%s' % ('cmp_last_spec' if spec_only else 'cmp_last', len(c['hist']), zlist(c['rows'][-1]), md, sp))
             else:
@@ -694,6 +788,32 @@ def sweep(ctx, tier_quick, only=None, boost=1):
                     ctx.violation({'what': '%s cannot be built / clocked in a legal configuration: %s: %s' % (blk.name, type(ex).__name__, ex), 'block': blk.name,
                                    'recipe': {'block': blk.name, 'params': clean(p), 'drive': 'construct, getSimulator(), clk(1)'}, 'inputs': [],
                                    'expected': 'the block is built and follows its reference machine', 'observed': traceback.format_exc()[-1200:]})
+    # the same blocks embedded in a larger design: inputs driven by other library logic, all instantiation orders
+    n_emb = 0
+    for blk in BLOCKS:
+        if only and blk.name not in only: continue
+        cfgs = blk.configs(True)
+        pick = cfgs if not tier_quick else [cfgs[0], cfgs[len(cfgs) // 2], cfgs[-1]]
+        for ci, p0 in enumerate(pick):
+            for order in ('block_first', 'sources_first', 'mixed'):
+                for mode in ('auto', 'ext'):
+                    p = dict(p0)
+                    seed = ctx.seed * 1009 + ci * 31 + boost
+                    try:
+                        i0, eh, rows, pokes = run_embedded(blk, p, order, mode, seed, 24 if tier_quick else 60)
+                    except Exception as ex:
+                        P().Wire.prepared = []
+                        if (blk.name, 'emb') not in raised:
+                            raised.add((blk.name, 'emb'))
+                            ctx.violation({'what': '%s cannot be built / clocked when embedded in a larger design (%s, %s): %s: %s' % (blk.name, order, mode, type(ex).__name__, ex),
+                                           'block': blk.name, 'recipe': {'block': blk.name, 'params': clean(p), 'embedded': {'order': order, 'mode': mode, 'seed': seed}},
+                                           'inputs': [], 'expected': 'the design is built and runs', 'observed': traceback.format_exc()[-1200:]})
+                        continue
+                    cases.append({'blk': blk, 'p': p, 'kind': 'embed', 'order': order, 'mode': mode, 'seed': seed, 'i0': i0, 'ehist': eh, 'rows': rows,
+                                  'pokes': pokes, 'hist': [x[0] for x in eh]})
+                    ctx.count(blk.key(p) + ('embedded', order, mode), n=len(eh))
+                    n_emb += 1
+    stats['_embedded_runs'] = n_emb
     ctx.notes.setdefault('sweeps', []).append({'quick': tier_quick, 'boost': boost, 'depth': depth, 'cases': len(cases), 'per_block': stats})
     ctx.log('sweep: %d histories on the real blocks; evaluating models and reference machines in Coq' % len(cases))
     fails, spec_only = eval_batches(ctx, cases, 'C09_sweep%d' % boost)
@@ -711,10 +831,29 @@ def report_spec_failures(ctx, spec_f):
     by = {}
     for c, md, sd in spec_f:
         k = c['blk'].name
-        if k not in by or len(c['hist']) < len(by[k][0]['hist']):
+        rank = lambda x: (x['kind'] == 'embed', len(x['hist']))       # prefer a stand-alone (poked) history: simpler to replay
+        if k not in by or rank(c) < rank(by[k][0]):
             by[k] = (c, md, sd)
     for k, (c, md, sd) in sorted(by.items()):
         step = sd[0]
+        if c['kind'] == 'embed':
+            eh = c['ehist'][:step]
+            try:
+                t = '%s %s [%s]' % (c['blk'].spec(c['p']).replace('_trace', '_etrace', 1), zlist(c['i0']),
+                                    '; '.join('(%s, %s)' % (zlist(a), zlist(b)) for a, b in eh))
+                srows = coq_eval_nobuild('C09_especrows', PRELUDE_SPEC, [('s', t)])['s']
+            except Exception as ex:
+                srows = 'unavailable: %s' % ex
+            ncol = len(srows[0]) if isinstance(srows, list) and srows else None
+            ctx.violation({'what': '%s does not follow its reference state machine when embedded in a larger design (instantiation order %s, inputs driven by library logic)' % (k, c['order']),
+                           'block': k,
+                           'recipe': {'block': k, 'params': clean(c['p']), 'embedded': {'order': c['order'], 'mode': c['mode'], 'seed': c['seed']},
+                                      'drive': 'Embed(order, mode, seed) adds a Counter + Mul + Bit/Range + gate per input to the same HWSystem; poke the ext wires (mode ext), clk(1), read outputs; nothing else is propagated by hand'},
+                           'inputs': c['pokes'][:step], 'steps': step, 'failing_row': step, 'output_column': sd[1][0],
+                           'inputs_visible_at_powerup': c['i0'], 'inputs(sampled at the edge, visible after it)': eh,
+                           'expected': srows, 'observed': [r[:ncol] for r in c['rows'][:step + 1]],
+                           'observed_value': sd[1][1], 'expected_value': sd[1][2]})
+            continue
         hist = c['hist'][:step]                      # rows are indexed with power-up = 0, so the failing edge is number `step`
         try:
             srows, mrows = spec_rows(c['blk'], c['p'], hist)
@@ -732,7 +871,8 @@ def run(ctx):
     ctx.cov['rule'] = ('obligations: theorems of Properties/C09.v; correspondence cases: one case = one input history driven through the REAL block from '
                        'power-up (all outputs, internal register outputs and leaf attributes compared after every edge with the Coq block model, outputs '
                        'with the Coq reference machine); a case is distinct by (block, configuration, input history); histories come from breadth-first '
-                       'exploration of the distinct simulator states (exhaustive over small alphabets up to the stated depth) and from random draws')
+                       'exploration of the distinct simulator states (exhaustive over small alphabets up to the stated depth), from random draws, and from runs of the block '
+                       'embedded in a larger design (inputs driven by a counter + gates, block instantiated first / last / in between)')
     missing = ctx.regen(NEEDED)
     r = ctx.prove(['Properties/C09.v'])
     ctx.log('proofs: %s' % ('ok' if r['ok'] else 'BROKEN at %s (%s)' % (r.get('lemma'), r.get('file'))))
@@ -803,6 +943,14 @@ def replay(rp):
     if name not in BY_NAME or rp.get('kind') == 'broken-obligation':
         print('replay: nothing to drive (broken obligation / harness failure):'); print(json.dumps(rp, indent=1)[:3000]); return 0
     blk = BY_NAME[name]
+    if rec.get('embedded') and isinstance(rp.get('expected'), list):
+        e = rec['embedded']
+        i0, eh, rows, pokes = run_embedded(blk, dict(rec['params']), e['order'], e['mode'], e['seed'], rp['steps'], ext_hist=rp['inputs'] if e['mode'] == 'ext' else None)
+        exp = rp['expected']
+        obs = [r[:len(exp[0])] for r in rows]
+        print('replay %s %s embedded %s' % (name, rec['params'], e)); print(' expected:', exp); print(' observed:', obs)
+        print('replay: %s' % ('STILL FAILS' if obs != exp else 'no longer fails'))
+        return 1 if obs != exp else 0
     if not rp['inputs'] and isinstance(rp.get('expected'), str):
         try:
             run_impl(blk, dict(rec['params']), [blk.rand_row(dict(rec['params']), random.Random(1))])
